@@ -30,7 +30,7 @@ func genCluster(r *sim.Rand) map[string]int64 {
 func genC22(r *sim.Rand, tier string) *sim.Case {
 	c := &sim.Case{Cfg: genCluster(r)}
 	nreg := int(c.Cfg["regions"])
-	ncli := r.Pick(3, 4, 6)
+	ncli := r.Pick(4, 6, 8)
 	c.Cfg["clients"] = int64(ncli)
 	for rg := 0; rg < nreg; rg++ {
 		c.Ops = append(c.Ops, sim.Op{K: "campaign", A: int64(rg), B: int64(r.Intn(3))})
